@@ -2,12 +2,14 @@
 \* included), timestamps in 1..2, every change valid (delegate or guest author).
 CONSTANTS
   Atomic = TRUE
+  SingleInPlace = FALSE
   DropDetached = TRUE
   Namespace = {1}
   M = 3
   MaxTs = 2
   Classes = {"ok", "guest"}
   MaxBad = 3
+  FullCauses = 1
   AllowDetached = FALSE
   Emit = TRUE
   EmitMod = 1
